@@ -7,6 +7,7 @@ import itertools
 
 from ..cfg import Node, must_edges, walk_no_nested
 from ..dataflow import Slice, bind_call, chain_key, fmt_origin, origins
+from ..decide import UNKNOWN, Decider, role_of
 from ..loader import AnalysisError, ClassInfo, FuncInfo
 from ..markomodel import MarkoModel, Registered
 from ..report import Ctx
@@ -253,6 +254,32 @@ def _bool_eval(expr: ast.AST, atom) -> bool | None:
     return atom(expr)
 
 
+def _iteration_sites(prog, fi: FuncInfo, chain: str, depth: int = 0) -> list[tuple[FuncInfo, str, object, str]]:
+    """Places where the sequence `chain` (e.g. "element.delimiters") is iterated: (function, "for"|"comp", loop head node or
+    comprehension expression, loop variable). A helper that receives the sequence as an argument is followed."""
+    out: list[tuple[FuncInfo, str, object, str]] = []
+    flow = prog.flow(fi)
+    for n in flow.cfg.nodes:
+        if n.kind == "for" and chain_key(n.ast.iter) == chain and isinstance(n.ast.target, ast.Name):
+            out.append((fi, "for", n, n.ast.target.id))
+    for x in walk_no_nested(fi.node):
+        if isinstance(x, (ast.ListComp, ast.GeneratorExp, ast.SetComp)) and len(x.generators) == 1:
+            g = x.generators[0]
+            if chain_key(g.iter) == chain and isinstance(g.target, ast.Name) and not g.ifs:
+                out.append((fi, "comp", x, g.target.id))
+        if isinstance(x, ast.Call) and depth < 2:
+            for i, a in enumerate(x.args):
+                if chain_key(a) == chain:
+                    t = prog.resolve_call(fi, x)
+                    if isinstance(t, list) and len(t) == 1 and not isinstance(t[0].node, ast.Lambda):
+                        callee = t[0]
+                        b = bind_call(callee, x)
+                        for p, arg in b.items():
+                            if arg is a:
+                                out += _iteration_sites(prog, callee, p, depth + 1)
+    return out
+
+
 def check_decisions(ctx: Ctx) -> None:
     rm = get_model(ctx)
     prog = ctx.prog
@@ -262,44 +289,45 @@ def check_decisions(ctx: Ctx) -> None:
         raise AnalysisError("render method for Table not found")
     flow = prog.flow(m)
     el = rm.el_param(m)
-    loops = [h for h in flow.cfg.nodes if h.kind == "for" and f"{el}.delimiters" in norm(h.ast.iter)]
-    ctx.require("R-DECISION", "loop over Table.delimiters", len(loops), 1)
-    for h in loops:
-        var = h.ast.target.id if isinstance(h.ast.target, ast.Name) else None
-        outcomes: dict[tuple[bool, bool], set[str]] = {}
+    sites = _iteration_sites(prog, m, f"{el}.delimiters")
+    ctx.require("R-DECISION", "iteration over Table.delimiters", len(sites), 1)
+    for sfi, kind, h, var in sites:
+        outcomes: dict[tuple[bool, bool], set] = {}
         for s, e in itertools.product([False, True], repeat=2):
-            def atom(leaf: ast.AST, s=s, e=e) -> bool | None:
-                if isinstance(leaf, ast.Call) and isinstance(leaf.func, ast.Attribute) and isinstance(leaf.func.value, ast.Name) \
-                        and leaf.func.value.id == var and leaf.args and isinstance(leaf.args[0], ast.Constant) and leaf.args[0].value == ":":
+            def atom(leaf: ast.AST, aliases: frozenset, s=s, e=e) -> bool | None:
+                if isinstance(leaf, ast.Call) and isinstance(leaf.func, ast.Attribute) and "d" in role_of(leaf.func.value, aliases) \
+                        and leaf.args and isinstance(leaf.args[0], ast.Constant) and leaf.args[0].value == ":":
                     if leaf.func.attr == "startswith":
                         return s
                     if leaf.func.attr == "endswith":
                         return e
                 return None
-            body_entry = [x for x, lab in h.succ if lab == "iter"]
-            consts: set[str] = set()
-            for be in body_entry:
-                for path in _leaf_env_paths(ctx, m, be, lambda n: n is h, lambda t: _bool_eval(t, atom)):
-                    last = None
-                    for n in path:
-                        if n.kind == "stmt" and isinstance(n.ast, ast.Assign) and isinstance(n.ast.value, ast.Constant) \
-                                and isinstance(n.ast.value.value, str):
-                            last = n.ast.value.value
-                    if last is not None:
-                        consts.add(last)
-            outcomes[(s, e)] = consts
-        ctx.note("table_alignment_outcomes", {f"start={s},end={e}": sorted(v) for (s, e), v in outcomes.items()})
+            dec = Decider(prog, atom)
+            al = frozenset({f"d={var}"})
+            vals: set = set()
+            if kind == "for":
+                for be in [x for x, lab in h.succ if lab == "iter"]:
+                    for _end, _env, _benv, outs in dec.walk(sfi, be, lambda n, h=h: n is h, al):
+                        for o in outs:
+                            vals |= o
+            else:
+                vals |= dec.ev(sfi, h.elt, {}, {}, al, 0)
+            outcomes[(s, e)] = vals
+        ctx.note("table_alignment_outcomes", {f"start={s},end={e}": sorted(map(str, v)) for (s, e), v in outcomes.items()})
+        if all(not v or UNKNOWN in v for v in outcomes.values()):
+            raise AnalysisError(f"table alignment: the value produced per delimiter in {sfi.qual} is not a recognised decision form")
+        anchor = h if kind == "for" else sfi.node
         for (s, e), consts in outcomes.items():
             key = f"{m.qual} :: alignment start-colon={s} end-colon={e}"
             ok = len(consts) == 1
             c = next(iter(consts)) if consts else ""
-            ok = ok and c.startswith(":") == s and c.endswith(":") == e and "-" in c.strip(":") and set(c.strip(":")) == {"-"}
+            ok = ok and isinstance(c, str) and c != UNKNOWN and c.startswith(":") == s and c.endswith(":") == e and "-" in c.strip(":") and set(c.strip(":")) == {"-"}
             ctx.ob("R-DECISION", key, ok,
-                   f"a delimiter with colon at start={s}/end={e} must normalise to one constant with the colon on exactly those sides; got {sorted(consts)}",
-                   where(m, h))
-        vals = [next(iter(v)) for v in outcomes.values() if len(v) == 1]
-        ctx.ob("R-DECISION", f"{m.qual} :: alignments pairwise distinct", len(set(vals)) == 4,
-               f"the four alignments must stay distinguishable: {vals}", where(m, h))
+                   f"a delimiter with colon at start={s}/end={e} must normalise to one constant with the colon on exactly those sides; got {sorted(map(str, consts))}",
+                   where(sfi, anchor))
+        vals2 = [next(iter(v)) for v in outcomes.values() if len(v) == 1]
+        ctx.ob("R-DECISION", f"{m.qual} :: alignments pairwise distinct", len(set(vals2)) == 4,
+               f"the four alignments must stay distinguishable: {vals2}", where(sfi, anchor))
     # (b) line break: soft -> newline, hard -> backslash newline
     m = rm.methods.get("LineBreak")
     if m is not None:
